@@ -46,6 +46,7 @@ func main() {
 	// a shard: its slice of every sub-check
 	runCrash(res, o.Shard, o.Shards)
 	runFault(res, o.Shard, o.Shards)
+	runSize(res, o.Shard, o.Shards)
 	withBudget(0.45, func() { runSeq(res, false, o.Shard, o.Shards) })
 	withBudget(0.45, func() { runSeq(res, true, o.Shard, o.Shards) })
 	runConc(res, o.Shard, o.Shards) // last: switches the process to Scheduled mode
@@ -89,6 +90,8 @@ func replay(path string) {
 			FaultH  string `json:"fault_history"`
 			K       int    `json:"k"`
 			Variant string `json:"variant"`
+			Size    int    `json:"size"`
+			Pos     int    `json:"pos"`
 		} `json:"replay"`
 	}
 	if err := json.Unmarshal(data, &a); err != nil {
@@ -102,6 +105,14 @@ func replay(path string) {
 	}
 	rp := a.Replay
 	switch {
+	case rp.Size > 0:
+		var n int64
+		var outc core.Outcomes
+		if v, _ := sizeOne(rp.Size, rp.Pos, &n, &outc); v != nil {
+			fail(v.What)
+		}
+		fmt.Println("replay: no violation")
+		return
 	case rp.Program != "":
 		for _, sp := range concSpecs() {
 			if sp.name == rp.Program {
